@@ -126,6 +126,11 @@ def run(F, R):
                 pay_ok = len(alts_) == 1 and alts_[0][0] == "field" and lib.strip_refs(alts_[0][1])[0] == "downcast" and lib.strip_refs(alts_[0][1])[2] == "Some" and (lib.head_call(alts_[0]) or "").endswith("StreamExt::next")
         R.check("C13-R4", "forwarder-forwards-every-value", not other_reads and pay_ok, "each received progress value is the one emitted: " + det_,
                 "the forwarder can take a progress value off the channel without emitting it (other reads: %s; emitted: %s)" % (other_reads, det_))
+        # .. on every way round the loop: from one read of the channel the next read is only reached through the emission
+        if len(nx) == 1 and len(ys_) == 1:
+            skip_ = nx[0] in bvv.reach_from(list(bvv.succ[nx[0]]), avoid=[ys_[0][0]])
+            R.check("C13-R4", "forwarder-emits-on-every-iteration", not skip_, "between two reads of the progress channel the value read is always emitted",
+                    "the forwarder can go from one read of the progress channel to the next without emitting what it read (a reported progress value is dropped)", lib.loc(bvv, nx[0]))
         # observer holds the only sender
         hv = a_ctx.parent.bv
         mk = [(bi, t) for bi, t in hv.calls() if lib.norm(t.get("callee") or "").endswith("mpsc::channel")]
